@@ -11,6 +11,9 @@ import (
 )
 
 func (core *JApiCore) collectPaths(dd []*directive.Directive) *jerr.JApiError {
+	// dd is the list of children of one directive, which can have only one Path.
+	hasPath := false
+
 	for i := 0; i != len(dd); i++ {
 		switch dd[i].Type() {
 		case directive.Macro:
@@ -19,6 +22,10 @@ func (core *JApiCore) collectPaths(dd []*directive.Directive) *jerr.JApiError {
 			if je := core.collectPathVariables(dd[i]); je != nil {
 				return je
 			}
+			if hasPath {
+				return dd[i].KeywordError(jerr.NotUniqueDirective)
+			}
+			hasPath = true
 		default:
 			// does nothing
 		}
@@ -63,18 +70,9 @@ func (core *JApiCore) collectPathVariables(d *directive.Directive) *jerr.JApiErr
 		return d.KeywordError("parent directive not found")
 	}
 
-	parentDirective := *d.Parent
-
-	if len(core.rawPathVariables) != 0 {
-		prevParent := core.rawPathVariables[len(core.rawPathVariables)-1].parentDirective
-		if prevParent.Equal(parentDirective) {
-			return d.KeywordError(jerr.NotUniqueDirective)
-		}
-	}
-
 	core.rawPathVariables = append(core.rawPathVariables, rawPathVariable{
 		pathDirective:   *d,
-		parentDirective: parentDirective,
+		parentDirective: *d.Parent,
 		schema:          s,
 		parameters:      pp,
 	})
